@@ -23,9 +23,10 @@ type qCol struct {
 }
 
 type qGen struct {
-	r     *rand.Rand
-	pool  []string // cell/literal texts
-	noDiv bool
+	r       *rand.Rand
+	pool    []string // cell/literal texts
+	noDiv   bool
+	lateral bool // LATERAL joins and recursive CTEs are generated (C03)
 }
 
 func coqLitString(s string) string { return "(ELit " + coqVal(value.NewString(s)) + ")" }
@@ -192,6 +193,8 @@ type qSrc struct {
 	tables   int
 	topCross bool // the outermost join is a CROSS JOIN written without parentheses
 	card     int  // upper bound of the number of rows (product over the joined sources): bounds the model's work
+	laterals []string // SQL of the left operand of every LATERAL join inside (an empty one loses the columns: finding lateral-empty-left-no-columns)
+	recursive bool
 }
 
 func shiftCols(cols []string) []qCol {
@@ -205,6 +208,7 @@ func shiftCols(cols []string) []qCol {
 // a common table expression of the current query: referenced like a table in SQL, expanded to its
 // defining query (SrcSub) in the model
 type qCTE struct {
+	rec  bool // WITH RECURSIVE
 	card int // upper bound of its row count
 	name string
 	def  string // "name AS (SELECT ...)"
@@ -213,9 +217,11 @@ type qCTE struct {
 }
 
 type qWorld struct {
-	tables []*qTable
-	alias  int
-	ctes   []*qCTE
+	tables   []*qTable
+	alias    int
+	ctes     []*qCTE
+	forceCTE *qCTE // the next table reference is this CTE (a recursive CTE is always referenced)
+	recLimit int   // --limit-recursion of the transaction the queries run in
 }
 
 // genCTE defines a non-recursive CTE over one of the world's tables
@@ -254,15 +260,18 @@ func (g *qGen) genCTE(w *qWorld) *qCTE {
 }
 
 func (g *qGen) tableSrc(w *qWorld) qSrc {
-	if len(w.ctes) > 0 && g.r.Intn(2) == 0 {
+	if w.forceCTE != nil || (len(w.ctes) > 0 && g.r.Intn(2) == 0) {
 		c := w.ctes[g.r.Intn(len(w.ctes))]
+		if w.forceCTE != nil {
+			c, w.forceCTE = w.forceCTE, nil
+		}
 		w.alias++
 		a := fmt.Sprintf("a%d", w.alias)
 		cols := make([]string, len(c.cols))
 		for i, n := range c.cols {
 			cols[i] = a + "." + n
 		}
-		return qSrc{sql: c.name + " AS " + a, coq: c.coq, cols: cols, tables: 1, card: c.card}
+		return qSrc{sql: c.name + " AS " + a, coq: c.coq, cols: cols, tables: 1, card: c.card, recursive: c.rec}
 	}
 	t := w.tables[g.r.Intn(len(w.tables))]
 	w.alias++
@@ -360,6 +369,209 @@ func (g *qGen) usingSrc(w *qWorld) (qSrc, bool) {
 	return qSrc{sql: sql, coq: coq, cols: cols, joins: 1, tables: 2, card: l.card*r.card + l.card + r.card}, true
 }
 
+// l CROSS/INNER/LEFT JOIN LATERAL (SELECT .. FROM inner WHERE <condition over the columns of l and inner>) AS s [ON ..]:
+// in the model the derived table is a function of the left row o (Model/Query.v SrcLateral), written as the
+// query over [o] CROSS JOIN inner, so that the columns of l keep their positions and those of inner follow
+func (g *qGen) lateralSrc(w *qWorld, l qSrc) qSrc {
+	var inner qSrc
+	if g.r.Intn(4) == 0 {
+		inner = g.source(w, 1)
+	} else {
+		inner = g.tableSrc(w)
+	}
+	lw := len(l.cols)
+	w.alias++
+	a := fmt.Sprintf("s%d", w.alias)
+	o := fmt.Sprintf("o%d", w.alias)
+	all := append(append([]string{}, l.cols...), inner.cols...)
+	cols := shiftCols(all)
+	innerCols := cols[lw:]
+	// the condition: mostly a left column against an inner column, so that the derived table depends on the row
+	var c qE
+	li, ri := g.r.Intn(lw), lw+g.r.Intn(len(inner.cols))
+	op := qCmpOps[[]int{0, 0, 0, 2, 5, 6}[g.r.Intn(6)]]
+	c = qE{all[li] + " " + op[0] + " " + all[ri], fmt.Sprintf("(ECmp %s (ECol %d) (ECol %d))", op[1], li, ri)}
+	switch g.r.Intn(4) {
+	case 0:
+		c2 := g.cond(cols, 1)
+		c = qE{c.sql + " AND " + c2.sql, fmt.Sprintf("(EAnd %s %s)", c.coq, c2.coq)}
+	case 1:
+		c = g.cond(cols, 1)
+	}
+	var items, citems, names []string
+	lim, clim := "", "None"
+	if g.r.Intn(4) == 0 {
+		// one row per left row whatever matches: aggregates over the matching rows
+		for i := 0; i <= g.r.Intn(2); i++ {
+			it := g.aggItem(cols)
+			items = append(items, fmt.Sprintf("%s AS x%d", it.sql, i))
+			citems = append(citems, it.coq)
+			names = append(names, fmt.Sprintf("%s.x%d", a, i))
+		}
+	} else {
+		n := 1 + g.r.Intn(3)
+		for i := 0; i < n; i++ {
+			var e qE
+			switch g.r.Intn(4) {
+			case 0:
+				e = g.scalar(cols, 1)
+			default:
+				cc := innerCols[g.r.Intn(len(innerCols))]
+				if g.r.Intn(4) == 0 {
+					cc = cols[g.r.Intn(len(cols))]
+				}
+				e = qE{cc.sql, fmt.Sprintf("(ECol %d)", cc.idx)}
+			}
+			items = append(items, fmt.Sprintf("%s AS x%d", e.sql, i))
+			citems = append(citems, "SExpr "+e.coq)
+			names = append(names, fmt.Sprintf("%s.x%d", a, i))
+		}
+		if inner.joins == 0 && g.r.Intn(5) == 0 {
+			// a derived table over a single source keeps that source's order, so LIMIT without ORDER BY is determined
+			k := 1 + g.r.Intn(2)
+			lim, clim = fmt.Sprintf(" LIMIT %d", k), fmt.Sprintf("(Some (LimRows %d, false))", k)
+		}
+	}
+	sub := "(SELECT " + strings.Join(items, ", ") + " FROM " + inner.sql + " WHERE " + c.sql + lim + ") AS " + a
+	csub := fmt.Sprintf("(fun %s : row => Q (BSelect (SrcJoin JCross (SrcTable %d [%s]) %s None) (Some %s) None None %s false) [] None %s)",
+		o, lw, o, inner.coq, c.coq, coqList(citems), clim)
+	outCols := append(append([]string{}, l.cols...), names...)
+	kinds := [][3]string{{"CROSS JOIN LATERAL", "JCross", ""}, {"CROSS JOIN LATERAL", "JCross", ""}, {"JOIN LATERAL", "JInner", "on"}, {"INNER JOIN LATERAL", "JInner", "on"},
+		{"LEFT JOIN LATERAL", "JLeft", "on"}, {"LEFT JOIN LATERAL", "JLeft", "on"}, {"LEFT OUTER JOIN LATERAL", "JLeft", "on"}}
+	if g.r.Intn(12) == 0 {
+		kinds = [][3]string{{"RIGHT JOIN LATERAL", "JRight", "on"}, {"FULL JOIN LATERAL", "JFull", "on"}}
+	}
+	k := kinds[g.r.Intn(len(kinds))]
+	s := qSrc{cols: outCols, joins: l.joins + inner.joins + 1, tables: l.tables + inner.tables, card: l.card*inner.card + l.card,
+		laterals: append(append(append([]string{}, l.laterals...), inner.laterals...), l.sql), recursive: l.recursive || inner.recursive}
+	lsql := l.sql
+	if l.topCross && k[2] == "on" {
+		lsql = "(" + l.sql + ")"
+	}
+	if k[2] == "on" {
+		var on qE
+		if g.r.Intn(3) == 0 {
+			on = qE{"TRUE", "(ELit (VTern TT))"}
+		} else {
+			on = g.cond(shiftCols(outCols), 1)
+		}
+		s.sql = lsql + " " + k[0] + " " + sub + " ON " + on.sql
+		s.coq = fmt.Sprintf("(SrcLateral %s %s %d %s (Some %s))", k[1], l.coq, len(names), csub, on.coq)
+	} else {
+		s.sql = l.sql + " " + k[0] + " " + sub
+		s.coq = fmt.Sprintf("(SrcLateral %s %s %d %s None)", k[1], l.coq, len(names), csub)
+		s.topCross = true
+	}
+	return s
+}
+
+// WITH RECURSIVE r (n, d, ..) AS (base UNION [ALL] step): base over one table, the step over the temporary view
+// alone (a counter that stops at a bound) or joined with a table (a walk along matching keys, cut by a depth
+// column).  In the model the step is a function of the rows the temporary view holds (Model/Query.v SrcRec).
+// The bound is sometimes beyond --limit-recursion, so that the error is exercised too.
+func (g *qGen) genRecCTE(w *qWorld) *qCTE {
+	saved := g.noDiv
+	g.noDiv = true
+	defer func() { g.noDiv = saved }()
+	t := w.tables[g.r.Intn(len(w.tables))]
+	for try := 0; len(t.rows) > 14 && try < 5; try++ {
+		t = w.tables[g.r.Intn(len(w.tables))]
+	}
+	if len(t.rows) > 14 {
+		return nil
+	}
+	name := fmt.Sprintf("rec%d", len(w.ctes)+1)
+	all := g.r.Intn(3) != 0
+	tcols := make([]string, len(t.cols))
+	for i, c := range t.cols {
+		tcols[i] = "b." + c
+	}
+	bcols := shiftCols(tcols)
+	// base: SELECT <column>, 0 [, <column>] FROM t AS b [WHERE ..]
+	k0 := bcols[g.r.Intn(len(bcols))]
+	names := []string{"n", "d"}
+	bitems := []string{k0.sql, "0"}
+	bcitems := []string{fmt.Sprintf("SExpr (ECol %d)", k0.idx), "SExpr (ELit (VInt 0))"}
+	if g.r.Intn(2) == 0 {
+		k1 := bcols[g.r.Intn(len(bcols))]
+		names = append(names, "m")
+		bitems = append(bitems, k1.sql)
+		bcitems = append(bcitems, fmt.Sprintf("SExpr (ECol %d)", k1.idx))
+	}
+	wd := len(names)
+	bwh, bcwh := "", "None"
+	if g.r.Intn(3) == 0 {
+		c := g.cond(bcols, 1)
+		bwh, bcwh = " WHERE "+c.sql, "(Some "+c.coq+")"
+	}
+	base := "SELECT " + strings.Join(bitems, ", ") + " FROM " + t.name + " AS b" + bwh
+	cbase := fmt.Sprintf("(Q (BSelect (SrcTable %d %s) %s None None %s false) [] None None)", len(t.cols), t.coq, bcwh, coqList(bcitems))
+	bound := 1 + g.r.Intn(4)
+	if w.recLimit <= 10 && g.r.Intn(4) == 0 {
+		bound = w.recLimit + g.r.Intn(2) // at or beyond the limit
+	}
+	var step, cstep string
+	card := (len(t.rows) + 1) * (bound + 1)
+	rcols := []string{"r.n", "r.d", "r.m"}[:wd]
+	if len(t.rows) <= 6 && bound <= 3 && g.r.Intn(2) == 0 {
+		// a walk: the rows of t whose first column matches r.n
+		u := w.tables[g.r.Intn(len(w.tables))]
+		for try := 0; len(u.rows) > 6 && try < 5; try++ {
+			u = w.tables[g.r.Intn(len(w.tables))]
+		}
+		if len(u.rows) > 6 {
+			u = t
+		}
+		ucols := make([]string, len(u.cols))
+		for i, c := range u.cols {
+			ucols[i] = "u." + c
+		}
+		allc := append(append([]string{}, rcols...), ucols...)
+		to := wd + g.r.Intn(len(u.cols))
+		sitems := []string{allc[to], "r.d + 1"}
+		scitems := []string{fmt.Sprintf("SExpr (ECol %d)", to), "SExpr (EArith APlus (ECol 1) (ELit (VInt 1)))"}
+		if wd == 3 {
+			sitems = append(sitems, "r.m")
+			scitems = append(scitems, "SExpr (ECol 2)")
+		}
+		step = fmt.Sprintf("SELECT %s FROM %s AS r JOIN %s AS u ON r.n = u.%s WHERE r.d < %d", strings.Join(sitems, ", "), name, u.name, u.cols[0], bound)
+		cstep = fmt.Sprintf("(fun work : list row => Q (BSelect (SrcJoin JInner (SrcTable %d work) (SrcTable %d %s) (Some (ECmp OpEq (ECol 0) (ECol %d)))) (Some (ECmp OpLt (ECol 1) (ELit (VInt %d)))) None None %s false) [] None None)",
+			wd, len(u.cols), u.coq, wd, bound, coqList(scitems))
+		card = len(t.rows) + 1
+		for i, f := 0, len(t.rows)+1; i < bound; i++ {
+			f *= len(u.rows) + 1
+			card += f
+		}
+	} else {
+		// a counter on d, the first column rewritten by an expression over the row
+		e := g.scalar(shiftCols(rcols), 1)
+		sitems := []string{e.sql, "r.d + 1"}
+		scitems := []string{"SExpr " + e.coq, "SExpr (EArith APlus (ECol 1) (ELit (VInt 1)))"}
+		if wd == 3 {
+			sitems = append(sitems, "r.m")
+			scitems = append(scitems, "SExpr (ECol 2)")
+		}
+		extra, cextra := "", ""
+		if g.r.Intn(3) == 0 {
+			c := g.cond(shiftCols(rcols), 1)
+			extra, cextra = " AND "+c.sql, c.coq
+		}
+		cw := fmt.Sprintf("(ECmp OpLt (ECol 1) (ELit (VInt %d)))", bound)
+		if cextra != "" {
+			cw = fmt.Sprintf("(EAnd %s %s)", cw, cextra)
+		}
+		step = fmt.Sprintf("SELECT %s FROM %s AS r WHERE r.d < %d%s", strings.Join(sitems, ", "), name, bound, extra)
+		cstep = fmt.Sprintf("(fun work : list row => Q (BSelect (SrcTable %d work) (Some %s) None None %s false) [] None None)", wd, cw, coqList(scitems))
+	}
+	op := "UNION"
+	if all {
+		op = "UNION ALL"
+	}
+	return &qCTE{rec: true, name: name, card: card, cols: names,
+		def: fmt.Sprintf("RECURSIVE %s (%s) AS (%s %s %s)", name, strings.Join(names, ", "), base, op, step),
+		coq: fmt.Sprintf("(SrcRec %s %d %s %s %d)", coqBool(all), wd, cbase, cstep, w.recLimit)}
+}
+
 var qJoinKinds = [][3]string{{"CROSS JOIN", "JCross", ""}, {"INNER JOIN", "JInner", "on"}, {"JOIN", "JInner", "on"}, {"LEFT JOIN", "JLeft", "on"},
 	{"LEFT OUTER JOIN", "JLeft", "on"}, {"RIGHT JOIN", "JRight", "on"}, {"FULL JOIN", "JFull", "on"}, {"FULL OUTER JOIN", "JFull", "on"}}
 
@@ -373,10 +585,14 @@ func (g *qGen) source(w *qWorld, depth int) qSrc {
 		return g.tableSrc(w)
 	}
 	l := g.source(w, depth-1)
+	if g.lateral && g.r.Intn(4) == 0 {
+		return g.lateralSrc(w, l)
+	}
 	r := g.source(w, g.r.Intn(depth))
 	jk := qJoinKinds[g.r.Intn(len(qJoinKinds))]
 	cols := append(append([]string{}, l.cols...), r.cols...)
-	s := qSrc{cols: cols, joins: l.joins + r.joins + 1, tables: l.tables + r.tables, card: l.card*r.card + l.card + r.card}
+	s := qSrc{cols: cols, joins: l.joins + r.joins + 1, tables: l.tables + r.tables, card: l.card*r.card + l.card + r.card,
+		laterals: append(append([]string{}, l.laterals...), r.laterals...), recursive: l.recursive || r.recursive}
 	rsql := r.sql
 	if r.joins > 0 {
 		rsql = "(" + r.sql + ")"
